@@ -9,7 +9,7 @@ import (
 func init() {
 	register(&PropRule{
 		ID:    "C40",
-		Roots: []string{"./control/drkey/grpc", "./pkg/connect"},
+		Roots: []string{"./control/drkey/grpc", "./pkg/connect", "./control/drkey"},
 		Explain: "Decides: each DRKey RPC reaches its Engine.Derive*/Get* call only after its validator " +
 			"succeeded on the very metadata that is then derived from, with the server's local ISD-AS " +
 			"and the gRPC peer address; the complete decision tables of validateASHostReq, " +
@@ -61,6 +61,8 @@ func init() {
 func runC40(c *Ctx) {
 	c40Converters(c)
 	c40PeerIsTransport(c)
+	// the secret value served is the one of the protocol that was authorised: the backend keeps nothing between calls
+	requireStateless(c, "M1-no-state-between-requests", "(*control/drkey.secretValueBackend).getSecretValue")
 	requireStateless(c, "M1-no-state-between-requests",
 		"(*control/drkey/grpc.Server).DRKeyLevel1", "(*control/drkey/grpc.Server).DRKeyIntraLevel1",
 		"(*control/drkey/grpc.Server).DRKeyASHost", "(*control/drkey/grpc.Server).DRKeyHostAS",
